@@ -99,6 +99,12 @@ type vc35Op struct {
 	cids   []int // bcast / cancel
 	pace   int   // pause after the op: 0 none, 1 yield, 2 50-500us, 3 a bit more than one send round
 	paceUs int
+	// rendezvous with the message construction (a forced, legal interleaving):
+	// arm: before this call, ask the message tap to hold the run loop when it
+	// next adds this op's first CID to a message (lock-free construction);
+	// inWin: wait, on state, until that happens (or the CID is no longer
+	// pending) before this call; relWin: let the run loop go on after this call
+	arm, inWin, relWin bool
 }
 
 func (o vc35Op) all() []int {
@@ -110,6 +116,12 @@ func (o vc35Op) all() []int {
 
 func (o vc35Op) String() string {
 	p := [...]string{"", "~", "~~", "~~~~"}[o.pace]
+	if o.arm {
+		p += "^"
+	}
+	if o.inWin {
+		p = "@" + p
+	}
 	switch o.kind {
 	case vc35KWants:
 		return fmt.Sprintf("W(b=%v,h=%v)%s", o.blocks, o.haves, p)
@@ -191,11 +203,15 @@ func vc35GenScript(r *vlib.Rand, st vc35Stratum, nprod, nphase int) []vc35Phase 
 				return vc35Subset(r, own[p], max)
 			}
 			nops := r.Range(2, 10)
+			emptyBoost := 0 // upgrade stratum (one entry per message): more of the last shape
+			if st.upgrade {
+				emptyBoost = 4
+			}
 			for len(P.ops[p]) < nops {
 				var o vc35Op
 				x := r.Intn(100)
 				switch {
-				case x < 40:
+				case x < 38:
 					o.kind = vc35KWants
 					switch y := r.Intn(10); {
 					case y < 4:
@@ -205,15 +221,14 @@ func vc35GenScript(r *vlib.Rand, st vc35Stratum, nprod, nphase int) []vc35Phase 
 					default:
 						o.blocks, o.haves = pick(2), pick(2)
 					}
-				case x < 58:
+				case x < 56:
 					o.kind, o.cids = vc35KBcast, pick(3)
-				case x < 92:
+				case x < 84:
 					o.kind, o.cids = vc35KCancel, pick(3)
-				default:
+				case x < 90:
 					// flapping interest in one CID: cancel, want again, cancel
 					// again, back to back (sessions being torn down and
-					// re-created); only in the stratum that allows re-wants
-					// while a cancel is queued
+					// re-created)
 					c1 := pick(1)
 					a := vc35Op{kind: vc35KCancel, cids: c1}
 					b := vc35Op{kind: vc35KWants}
@@ -227,6 +242,52 @@ func vc35GenScript(r *vlib.Rand, st vc35Stratum, nprod, nphase int) []vc35Phase 
 					}
 					P.ops[p] = append(P.ops[p], a, b)
 					o.kind, o.cids = vc35KCancel, c1
+				case x < 95-emptyBoost:
+					// one CID asked for from this peer and by broadcast (one
+					// merged message entry), then cancelled and asked for again
+					// through one of the two while the message may be under
+					// construction
+					c1 := pick(1)
+					a := vc35Op{kind: vc35KWants}
+					if r.Bool() {
+						a.blocks = c1
+					} else {
+						a.haves = c1
+					}
+					b := vc35Op{kind: vc35KBcast, cids: c1, pace: r.Intn(2)}
+					if r.Bool() {
+						a, b = b, a
+						a.pace, b.pace = 0, r.Intn(2)
+					}
+					c := vc35Op{kind: vc35KCancel, cids: c1}
+					forced := r.Chance(2, 3)
+					b.arm, c.inWin = forced, forced
+					P.ops[p] = append(P.ops[p], a, b, c)
+					if r.Bool() {
+						o.kind, o.cids = vc35KBcast, c1
+					} else {
+						o.kind, o.blocks = vc35KWants, c1
+					}
+					o.inWin, o.relWin = forced, forced
+				default:
+					// two new wants in one call, the first (higher priority, so
+					// first into the message) cancelled right away: with a
+					// one-entry size limit the message under construction can
+					// end up empty while the second want is still pending
+					c2 := pick(2)
+					for len(c2) < 2 {
+						c2 = vc35Subset(r, own[p], 2)
+					}
+					a := vc35Op{kind: vc35KWants, pace: r.Intn(2)}
+					if r.Bool() {
+						a.blocks = c2
+					} else {
+						a.haves = c2
+					}
+					a.arm = r.Bool()
+					P.ops[p] = append(P.ops[p], a)
+					o.kind, o.cids = vc35KCancel, c2[:1]
+					o.inWin, o.relWin = a.arm, a.arm
 				}
 				vc35Pace(r, &o, false)
 				P.ops[p] = append(P.ops[p], o)
@@ -237,7 +298,9 @@ func vc35GenScript(r *vlib.Rand, st vc35Stratum, nprod, nphase int) []vc35Phase 
 	return phases
 }
 
-// vc35BurstPhase fills P with the "upgrade" shape if some producer owns at
+// vc35BurstPhase fills P with the tail-cancel shape (see below) or, if some
+// producer owns at least two CIDs with a live (hence sent) request, with the
+// "upgrade" shape: if some producer owns at
 // least two CIDs with a live (hence sent) request: that producer cancels 2-4 of
 // them at once, requests 1-2 want-haves, pauses for one to two send rounds and
 // upgrades one of the want-haves to want-block. The other producers are idle,
@@ -255,8 +318,76 @@ func vc35BurstPhase(r *vlib.Rand, P *vc35Phase, own [][]int, live []bool) bool {
 			cands = append(cands, p)
 		}
 	}
-	if len(cands) == 0 {
-		return false
+	others := func(star int, quiet bool) {
+		for p := range own {
+			if p == star {
+				continue
+			}
+			x := r.Intn(10)
+			if quiet {
+				x = x * 8 / 10 // idle or broadcast list only
+			}
+			switch {
+			case x < 5: // idle
+			case x < 8: // broadcast list only
+				for i, n := 0, r.Range(1, 3); i < n; i++ {
+					o := vc35Op{kind: vc35KBcast, cids: vc35Subset(r, own[p], 2)}
+					vc35Pace(r, &o, false)
+					P.ops[p] = append(P.ops[p], o)
+				}
+			default:
+				for i, n := 0, r.Range(1, 4); i < n; i++ {
+					o := vc35Op{kind: r.Intn(3), cids: vc35Subset(r, own[p], 2)}
+					if o.kind == vc35KWants {
+						if r.Bool() {
+							o.blocks, o.cids = o.cids, nil
+						} else {
+							o.haves, o.cids = o.cids, nil
+						}
+					}
+					vc35Pace(r, &o, false)
+					P.ops[p] = append(P.ops[p], o)
+				}
+			}
+		}
+	}
+	if len(cands) == 0 || r.Chance(1, 3) {
+		// tail-cancel shape: the last thing that happens in the phase is two new
+		// wants in one call and, while the (one-entry) message that carries the
+		// first of them may be under construction, the cancel of that first
+		// want. A cancel of a never-sent want schedules no send by itself.
+		star := r.Intn(len(own))
+		var ops []vc35Op
+		for i, n := 0, r.Intn(3); i < n; i++ {
+			o := vc35Op{kind: []int{vc35KWants, vc35KBcast, vc35KCancel}[r.Intn(3)], cids: vc35Subset(r, own[star], 2)}
+			if o.kind == vc35KWants {
+				o.blocks, o.cids = o.cids, nil
+			}
+			vc35Pace(r, &o, true)
+			ops = append(ops, o)
+		}
+		var c2 []int
+		for len(c2) < 2 {
+			c2 = vc35Subset(r, own[star], 2)
+		}
+		a := vc35Op{kind: vc35KWants}
+		if r.Bool() {
+			a.blocks = c2
+		} else {
+			a.haves = c2
+		}
+		switch r.Intn(3) {
+		case 0:
+			a.pace = 1
+		case 1:
+			a.pace, a.paceUs = 2, r.Range(20, 400)
+		default:
+			a.pace, a.paceUs = 2, r.Range(400, 2500)
+		}
+		a.arm = r.Chance(2, 3) // mostly forced into the construction window, sometimes left to timing
+		P.ops[star] = append(ops, a, vc35Op{kind: vc35KCancel, cids: c2[:1], inWin: a.arm, relWin: a.arm})
+		others(star, true)
+		return true
 	}
 	star := cands[r.Intn(len(cands))]
 	var liveOwn []int
@@ -299,33 +430,7 @@ func vc35BurstPhase(r *vlib.Rand, P *vc35Phase, own [][]int, live []bool) bool {
 		ops = append(ops, o)
 	}
 	P.ops[star] = ops
-	for p := range own {
-		if p == star {
-			continue
-		}
-		switch x := r.Intn(10); {
-		case x < 5: // idle
-		case x < 8: // broadcast list only
-			for i, n := 0, r.Range(1, 3); i < n; i++ {
-				o := vc35Op{kind: vc35KBcast, cids: vc35Subset(r, own[p], 2)}
-				vc35Pace(r, &o, false)
-				P.ops[p] = append(P.ops[p], o)
-			}
-		default:
-			for i, n := 0, r.Range(1, 4); i < n; i++ {
-				o := vc35Op{kind: r.Intn(3), cids: vc35Subset(r, own[p], 2)}
-				if o.kind == vc35KWants {
-					if r.Bool() {
-						o.blocks, o.cids = o.cids, nil
-					} else {
-						o.haves, o.cids = o.cids, nil
-					}
-				}
-				vc35Pace(r, &o, false)
-				P.ops[p] = append(P.ops[p], o)
-			}
-		}
-	}
+	others(star, false)
 	return true
 }
 
@@ -366,6 +471,13 @@ func (r *vc35Rec) peekOf(i int) (vc35Peek, bool) {
 		}
 	}
 	return vc35Peek{}, false
+}
+
+// vc35Rv is one rendezvous between a producer and the message construction.
+type vc35Rv struct {
+	cid       int
+	hit, done chan struct{}
+	hitOnce   sync.Once
 }
 
 type vc35Window struct {
@@ -411,6 +523,9 @@ type vc35World struct {
 	recs    [][]*vc35Rec // per producer
 	windows []vc35Window // phase-scoped concurrent rebroadcast windows
 	winMu   sync.Mutex
+
+	rvMu sync.Mutex
+	rvs  map[int]*vc35Rv // armed rendezvous by CID index
 
 	reported int    // violations reported by check()
 	diag     string // appended to the observation of violations reported by check()
@@ -507,6 +622,21 @@ func (m *vc35TapMsg) AddEntry(k cid.Cid, p int32, t pb.Message_Wantlist_WantType
 	m.adds[k]++
 	m.added++
 	n := m.BitSwapMessage.AddEntry(k, p, t, sdh)
+	if i, ok := m.w.idx[k]; ok {
+		m.w.rvMu.Lock()
+		rv := m.w.rvs[i]
+		m.w.rvMu.Unlock()
+		if rv != nil {
+			// hold the construction (no lock is held here) until the producer's
+			// calls are done; the timer is a safety net, not part of any oracle
+			rv.hitOnce.Do(func() { close(rv.hit) })
+			select {
+			case <-rv.done:
+			case <-time.After(250 * time.Millisecond):
+			}
+			m.w.k.C.Count("forced_calls_inside_construction", 1)
+		}
+	}
 	vc35Perturb(m.w.loopR, m.w.buildDelay)
 	return n
 }
@@ -579,7 +709,7 @@ func vc35Cid(s string) cid.Cid {
 
 func vc35Case(k *vlib.Case, st vc35Stratum) {
 	r := k.R
-	w := &vc35World{k: k, st: st, idx: map[cid.Cid]int{}, resetCh: make(chan struct{}), halfRemove: map[int]bool{}}
+	w := &vc35World{k: k, st: st, idx: map[cid.Cid]int{}, resetCh: make(chan struct{}), halfRemove: map[int]bool{}, rvs: map[int]*vc35Rv{}}
 	for i := 0; i < vc35PoolSize; i++ {
 		c := vc35Cid(fmt.Sprintf("verif-c35-%d", i))
 		w.pool = append(w.pool, c)
@@ -612,6 +742,7 @@ func vc35Case(k *vlib.Case, st vc35Stratum) {
 	if st.upgrade {
 		maxMsg = []int{1, E}[r.Intn(2)] // one entry per message
 		w.supportsHave = r.Chance(5, 6)
+		w.buildDelay = r.Range(1, 3) // one entry per message: one pause per construction
 		nphase = r.Range(3, 4)
 	}
 	script := vc35GenScript(r.Fork("script"), st, nprod, nphase)
@@ -738,9 +869,55 @@ func (w *vc35World) cids(is []int) []cid.Cid {
 	return out
 }
 
+// waitHit waits until the run loop is holding in the construction of a message
+// that contains rv's CID, or gives up (from state) when the CID is not pending
+// any more.
+func (w *vc35World) waitHit(rv *vc35Rv) bool {
+	for {
+		select {
+		case <-rv.hit:
+			return true
+		default:
+		}
+		pk := w.peek([]int{rv.cid})[0]
+		if !pk.pp && !pk.bp {
+			select {
+			case <-rv.hit:
+				return true
+			default:
+				return false
+			}
+		}
+		time.Sleep(50 * time.Microsecond)
+	}
+}
+
 func (w *vc35World) produce(ph, p int, ops []vc35Op) {
+	var rv *vc35Rv
+	release := func() {
+		if rv != nil {
+			w.rvMu.Lock()
+			delete(w.rvs, rv.cid)
+			w.rvMu.Unlock()
+			close(rv.done)
+			rv = nil
+		}
+	}
+	defer release()
+	waited := false
 	for n, o := range ops {
 		all := o.all()
+		if o.arm && rv == nil {
+			rv = &vc35Rv{cid: all[0], hit: make(chan struct{}), done: make(chan struct{})}
+			waited = false
+			w.rvMu.Lock()
+			w.rvs[rv.cid] = rv
+			w.rvMu.Unlock()
+		}
+		if o.inWin && rv != nil && !waited {
+			waited = true
+			w.waitHit(rv)
+		}
 		rec := &vc35Rec{prod: p, phase: ph, n: n, op: o}
 		rec.peek = w.peek(all)
 		rec.call = w.seq.Add(1)
@@ -766,6 +943,9 @@ func (w *vc35World) produce(ph, p int, ops []vc35Op) {
 		}
 		rec.ret = w.seq.Add(1)
 		w.recs[p] = append(w.recs[p], rec)
+		if o.relWin {
+			release()
+		}
 		switch o.pace {
 		case 1:
 			runtime.Gosched()
